@@ -141,7 +141,7 @@ def gen_structured(rng):
     depth and length that meet through a barrier; a long chain beside a short operation followed by a repeated two-qubit-wide block;
     an operation JOINED_END to a shorter one inside a doubly nested block that ends last."""
     ds = [0.25, 0.5, 1.0, 2.0, 3.0, 5.0]
-    shape = rng.choice(['parallel', 'parallel', 'plain-first', 'two-branch', 'chain-then-block', 'early-start', 'placeholder'])
+    shape = rng.choice(['parallel', 'parallel', 'plain-first', 'two-branch', 'chain-then-block', 'early-start', 'placeholder', 'uneven-leaves', 'channel-block'])
     if shape == 'parallel':
         da, db = rng.sample(ds, 2)
         blocks = [{'t': 'sub', 'reps': rng.choice([1, 1, 2]), 'body': [_w(0, da)] * rng.randint(1, 2)},
@@ -203,6 +203,34 @@ def gen_structured(rng):
             prog.append(_w(rng.randrange(len(lens)), 1.0, rel=[rng.choice('SF'), ph]))
         if rng.random() < 0.4:
             prog = [{'t': 'sub', 'reps': 1, 'body': prog}]
+    elif shape == 'uneven-leaves':
+        # a repeated block with two or three first operations on different qubits whose chains have DIFFERENT depths (the next round's
+        # first operations follow the whole group: each must be listed after the deepest member), optionally closed by a two-qubit gate
+        n0 = rng.randint(2, 4)
+        body = [_g(rng.choice(['Rx180', 'Ry90']), 0) for _ in range(n0)] + [_g('Rx180', 1)]
+        if rng.random() < 0.4:
+            body += [_g('Ry90', 2)] * rng.randint(1, 2)
+        rng.shuffle(body)
+        if rng.random() < 0.3:
+            body.append(_g('CPhase', [0, 1]))
+            body.append(_g('Rx180', 2))
+        prog = [{'t': 'sub', 'reps': rng.choice([2, 2, 3]), 'body': body}] + ([_g('Rx180', rng.choice([0, 1]))] if rng.random() < 0.5 else [])
+        if rng.random() < 0.3:
+            prog = [_g('Ry90', 1)] + prog
+    elif shape == 'channel-block':
+        # a block holding a wait on ONE channel of a qubit, then relation-free operations on other channels of that qubit (they share
+        # no channel with the block and start at the circuit start) and on the same channel (they follow the block)
+        chans = ['FLUX', 'MICROWAVE', 'READOUT']
+        c0 = rng.choice(chans)
+        block = {'t': 'sub', 'reps': rng.choice([1, 2]), 'body': [_w(0, rng.choice(ds), ch=c0)] + ([_w(1, 1.0)] if rng.random() < 0.4 else [])}
+        tail = [_g(rng.choice(['Rx180', 'DispersiveMeasure', 'VirtualPark']), 0), _w(0, rng.choice(ds), ch=rng.choice(chans))]
+        for t in tail:
+            if t['cls'] == 'DispersiveMeasure':
+                t['tag'] = ''
+        rng.shuffle(tail)
+        prog = [block] + tail
+        if rng.random() < 0.4:
+            prog = [{'t': 'sub', 'reps': rng.choice([1, 2]), 'body': prog}]
     else:   # early-start: an operation that starts before the first operation of a doubly nested block which ends last
         a = _w(0, 1.0)
         b = _w(1, rng.choice([2.0, 3.0, 5.0]), rel=['E', 0])
